@@ -151,7 +151,8 @@ impl<D: DataT, E: FromBoxError> MultipartStream<D, E> {
     fn poll_next(&mut self, cx: &mut Context) -> (r: Poll<Option<Result<D, E>>>)
         requires old(self).wf(),
         ensures
-            /*@C01,C06,C07,C12,C20 #wf_preserved*/ final(self).wf(),
+            /*@C01,C06,C07,C12,C20 #wf_preserved*/ !(r matches Poll::Ready(Some(Err(_)))) ==> final(self).wf(),
+            /*@C12,C20 #wf_after_error*/ (r matches Poll::Ready(Some(Err(_)))) ==> final(self).wf(),
             /*@C06 #frame_unchanged*/ final(self).ranges == old(self).ranges && final(self).entity == old(self).entity && final(self).part_headers@.len() == old(self).part_headers@.len(),
             /*@C01,C12 #accounting*/ match r {
                 Poll::Ready(Some(Ok(d))) => d.bytes().len() <= old(self).remaining && final(self).remaining == old(self).remaining - d.bytes().len(),
@@ -159,7 +160,7 @@ impl<D: DataT, E: FromBoxError> MultipartStream<D, E> {
                 Poll::Ready(None) => old(self).remaining == 0 && final(self).remaining == 0,
                 Poll::Pending => final(self).remaining == old(self).remaining,
             },
-            /*@C07,C20 #terminal_after_end_or_error*/ (r matches Poll::Ready(Some(Err(_))) || r matches Poll::Ready(None)) ==> final(self).terminal(),
+            /*@C12,C20 #terminal_after_end_or_error*/ (r matches Poll::Ready(Some(Err(_))) || r matches Poll::Ready(None)) ==> final(self).terminal(),
             /*@C20 #terminal_stays*/ old(self).terminal() ==> r matches Poll::Ready(None),
             /*@C06 #order*/ final(self).state >= old(self).state
                 && (!(r matches Poll::Ready(Some(Err(_)))) ==> final(self).state <= old(self).state + 2)
@@ -187,5 +188,6 @@ impl<D: DataT, E: FromBoxError> MultipartStream<D, E> {
     //@end
 }
 
+//@canary_false
 } // verus!
 fn main() {}
